@@ -130,6 +130,109 @@ func init() {
 		}
 		return []Term{loc}
 	}
+	// time.Time is an integer number of nanoseconds since the zero time; Duration is int64 nanoseconds
+	stubs["time.(Time).Add"] = func(cx *callCtx) []Term { return []Term{fmt.Sprintf("(+ %s %s)", cx.args[0], cx.args[1])} }
+	stubs["time.(Time).Sub"] = func(cx *callCtx) []Term { return []Term{fmt.Sprintf("(- %s %s)", cx.args[0], cx.args[1])} }
+	stubs["time.(Time).Before"] = func(cx *callCtx) []Term { return []Term{fmt.Sprintf("(< %s %s)", cx.args[0], cx.args[1])} }
+	stubs["time.(Time).After"] = func(cx *callCtx) []Term { return []Term{fmt.Sprintf("(> %s %s)", cx.args[0], cx.args[1])} }
+	stubs["time.(Time).Equal"] = func(cx *callCtx) []Term { return []Term{eq(cx.args[0], cx.args[1])} }
+	stubs["time.(Time).Compare"] = func(cx *callCtx) []Term {
+		return []Term{fmt.Sprintf("(ite (< %s %s) (- 1) (ite (> %s %s) 1 0))", cx.args[0], cx.args[1], cx.args[0], cx.args[1])}
+	}
+	stubs["time.(Time).IsZero"] = func(cx *callCtx) []Term { return []Term{eq(cx.args[0], "0")} }
+	stubs["time.(Time).UTC"] = func(cx *callCtx) []Term { return []Term{cx.args[0]} }
+	stubs["time.(Time).Local"] = func(cx *callCtx) []Term { return []Term{cx.args[0]} }
+	stubs["time.(Time).Truncate"] = func(cx *callCtx) []Term { return cx.freshResults("trunc") }
+	stubs["k8s.io/apimachinery/pkg/apis/meta/v1.(*Time).IsZero"] = func(cx *callCtx) []Term {
+		e := cx.fr.eng
+		t := cx.argTs[0].Underlying().(*types.Pointer).Elem()
+		return []Term{or(eq(cx.args[0], "nil"), eq(e.loadField(cx.st, cx.args[0], t, 0), "0"))}
+	}
+	stubs["k8s.io/apimachinery/pkg/apis/meta/v1.(*Time).Before"] = func(cx *callCtx) []Term {
+		e := cx.fr.eng
+		t := cx.argTs[0].Underlying().(*types.Pointer).Elem()
+		a, b := cx.args[0], cx.args[1]
+		return []Term{fmt.Sprintf("(ite (and (not (= %s nil)) (not (= %s nil))) (< %s %s) (and (= %s nil) (not (= %s nil))))", a, b, e.loadField(cx.st, a, t, 0), e.loadField(cx.st, b, t, 0), a, b)}
+	}
+	stubs["k8s.io/apimachinery/pkg/apis/meta/v1.NewTime"] = func(cx *callCtx) []Term {
+		vc := cx.fr.eng.vc
+		t := cx.sig.Results().At(0).Type()
+		vc.sortOf(t)
+		return []Term{fmt.Sprintf("(%s %s)", vc.structCtor(t), cx.args[0])}
+	}
+	// the injected clock: monotone within one call
+	now := func(cx *callCtx) []Term {
+		e := cx.fr.eng
+		vc := e.vc
+		c := e.comp("$now", "Int")
+		t := vc.fresh("now", "Int")
+		vc.assumeIf(cx.st.pc, fmt.Sprintf("(and (>= %s %s) (> %s 0))", t, e.get(cx.st, c), t))
+		cx.st.heap[c] = t
+		return []Term{t}
+	}
+	stubs["(k8s.io/utils/clock.Clock).Now"] = now
+	stubs["(k8s.io/utils/clock.PassiveClock).Now"] = now
+	stubs["(k8s.io/utils/clock.WithTicker).Now"] = now
+	stubs["time.Now"] = now
+	since := func(cx *callCtx) []Term {
+		t := now(cx)[0]
+		return []Term{fmt.Sprintf("(- %s %s)", t, cx.args[len(cx.args)-1])}
+	}
+	stubs["(k8s.io/utils/clock.Clock).Since"] = since
+	stubs["(k8s.io/utils/clock.PassiveClock).Since"] = since
+	stubs["time.Since"] = since
+	stubs["(k8s.io/utils/clock.Clock).Sleep"] = func(cx *callCtx) []Term { now(cx); return nil }
+	stubs["sigs.k8s.io/controller-runtime/pkg/client.IgnoreNotFound"] = func(cx *callCtx) []Term {
+		vc := cx.fr.eng.vc
+		declErrPreds(vc)
+		return []Term{fmt.Sprintf("(ite (IsNotFound %s) nil_iface %s)", cx.args[0], cx.args[0])}
+	}
+	stubs["k8s.io/apimachinery/pkg/api/errors.IsNotFound"] = func(cx *callCtx) []Term {
+		declErrPreds(cx.fr.eng.vc)
+		return []Term{fmt.Sprintf("(IsNotFound %s)", cx.args[0])}
+	}
+	stubs["k8s.io/apimachinery/pkg/api/errors.IsConflict"] = func(cx *callCtx) []Term {
+		declErrPreds(cx.fr.eng.vc)
+		return []Term{fmt.Sprintf("(IsConflict %s)", cx.args[0])}
+	}
+	stubs["errors.As"] = func(cx *callCtx) []Term {
+		e := cx.fr.eng
+		vc := e.vc
+		tn := "any"
+		if len(cx.argVs) > 1 {
+			if mi, ok := cx.argVs[1].(*ssa.MakeInterface); ok {
+				tn = shortTypeKey(mi.X.Type())
+				// the target cell receives the matched error
+				if pt, ok := mi.X.Type().Underlying().(*types.Pointer); ok && !isStructLike(pt.Elem()) && !cx.spec {
+					c := e.boxComp(pt.Elem())
+					v := vc.fresh("astarget", vc.sortOf(pt.Elem()))
+					cx.st.heap[c] = vc.name("h", e.compSort[c], sto(e.get(cx.st, c), cx.fr.val(mi.X), v))
+				}
+			}
+		} else if len(cx.argTs) > 1 {
+			tn = shortTypeKey(cx.argTs[1])
+		}
+		f := sym("errAs$" + tn)
+		vc.decl("fn:"+f, fmt.Sprintf("(declare-fun %s (Iface) Bool)", f))
+		vc.decl("ax:"+f, fmt.Sprintf("(assert (not (%s nil_iface)))", f))
+		return []Term{fmt.Sprintf("(%s %s)", f, cx.args[0])}
+	}
+	stubs["errors.Is"] = func(cx *callCtx) []Term {
+		vc := cx.fr.eng.vc
+		vc.decl("fn:errIs", "(declare-fun errIs (Iface Iface) Bool)")
+		vc.decl("ax:errIs", "(assert (forall ((a Iface)) (! (errIs a a) :pattern ((errIs a a)))))")
+		return []Term{fmt.Sprintf("(errIs %s %s)", cx.args[0], cx.args[1])}
+	}
+	stubs["go.uber.org/multierr.Combine"] = func(cx *callCtx) []Term {
+		// nil iff every element is nil
+		e := cx.fr.eng
+		vc := e.vc
+		r := vc.fresh("combined", "Iface")
+		box := e.get(cx.st, e.boxComp(types.Universe.Lookup("error").Type()))
+		s := cx.args[0]
+		vc.assumeIf(cx.st.pc, fmt.Sprintf("(= (= %s nil_iface) (forall ((j Int)) (! (=> (and (<= 0 j) (< j (s_len %s))) (= (select %s (sidx %s j)) nil_iface)) :pattern ((sidx %s j)))))", r, s, box, s, s))
+		return []Term{r}
+	}
 	stubs["math/rand.Intn"] = func(cx *callCtx) []Term {
 		vc := cx.fr.eng.vc
 		cx.fr.safety(cx.st, "call.rand.Intn", fmt.Sprintf("(> %s 0)", cx.args[0]), cx.instr, "rand.Intn argument must be positive")
@@ -147,6 +250,13 @@ func declAtoi(vc *VC) {
 	vc.decl("ax:atoi_err", "(assert (not (= atoi_err nil_iface)))")
 	vc.decl("ax:atoirange", "(assert (forall ((s Str)) (! (and (<= (- 9223372036854775808) (atoi_val s)) (<= (atoi_val s) 9223372036854775807)) :pattern ((atoi_val s)))))")
 	vc.decl("ax:itoa", "(assert (forall ((i Int)) (! (and (atoi_ok (itoa i)) (= (atoi_val (itoa i)) i)) :pattern ((itoa i)))))")
+}
+
+func declErrPreds(vc *VC) {
+	for _, p := range []string{"IsNotFound", "IsConflict"} {
+		vc.decl("fn:"+p, fmt.Sprintf("(declare-fun %s (Iface) Bool)", p))
+		vc.decl("ax:"+p, fmt.Sprintf("(assert (not (%s nil_iface)))", p))
+	}
 }
 
 func lookupStub(name string) stubFn {
@@ -246,7 +356,7 @@ func (cx *callCtx) setBulkN(mt *types.Map, m Term, items Term, insert bool, argI
 	dc := e.mapDomComp(mt)
 	box := e.get(cx.st, e.boxComp(mt.Key()))
 	elem := func(j Term) Term {
-		return sel(box, fmt.Sprintf("(idx (s_arr %s) (+ (s_off %s) %s))", items, items, j))
+		return sel(box, fmt.Sprintf("(sidx %s %s)", items, j))
 	}
 	if n := cx.staticSliceLen(argIdx); n >= 0 && n <= 8 {
 		// explicit arguments: one map update / delete per element
@@ -297,7 +407,7 @@ func (fr *Frame) rangeMutationCheckBulk(st *State, m Term, mt *types.Map, items,
 			}
 			i := e.get(st, ri.ctrComp)
 			active := fmt.Sprintf("(and (> %s 0) (<= %s %s))", i, i, ri.n)
-			el := sel(box, fmt.Sprintf("(idx (s_arr %s) (+ (s_off %s) j))", items, items))
+			el := sel(box, fmt.Sprintf("(sidx %s j)", items))
 			okc := fmt.Sprintf("(or (not (= %s %s)) (not %s) (forall ((j Int)) (=> (and (<= 0 j) (< j (s_len %s))) (or (not (select %s %s)) (< (%s %s) %s)))))", m, ri.mapLoc, active, items, ri.dom0, el, ri.idxOf, el, i)
 			e.vc.oblige(fr.oblName(fmt.Sprintf("safe.rangemut.%d", e.safeOrd(fr, "rangemut"))), "safety", st.pc, okc, "set mutated during range only at visited keys")
 		}
